@@ -108,6 +108,26 @@ def build(entry, lines, version=None, vlevel=1, dialect="standard",
         objs = [gfapy.Line(l, vlevel=vlevel, dialect=dialect) for l in lines]
         b.stage = "Gfa(list)"
         b.g = gfapy.Gfa(objs, **kw)
+      elif entry == "clones":
+        # Line instances which are clones of parsed lines
+        b.stage = "Line().clone()"
+        objs = [gfapy.Line(l, vlevel=vlevel, dialect=dialect).clone()
+                for l in lines]
+        b.stage = "Gfa(list)"
+        b.g = gfapy.Gfa(objs, **kw)
+      elif entry == "carry":
+        # line by line; a refused line (gfapy.Error) is dropped by the caller,
+        # who carries on with the next one
+        b.stage = "Gfa()"
+        b.g = gfapy.Gfa(**kw)
+        b.versions = []
+        for i, l in enumerate(lines):
+          b.stage = "add_line#{}".format(i)
+          try:
+            b.g.add_line(l)
+          except gfapy.Error:
+            pass
+          b.versions.append(b.g.version)
       elif entry == "inc":
         b.stage = "Gfa()"
         b.g = gfapy.Gfa(**kw)
@@ -169,6 +189,16 @@ def standalone(entry, lines, version=None, vlevel=1, dialect="standard",
     out.append("objs = [gfapy.Line(l, vlevel={!r}, dialect={!r}) for l in "
                "lines]".format(vlevel, dialect))
     out.append("g = gfapy.Gfa(objs, {})".format(kw))
+  elif entry == "clones":
+    out.append("objs = [gfapy.Line(l, vlevel={!r}, dialect={!r}).clone() for "
+               "l in lines]".format(vlevel, dialect))
+    out.append("g = gfapy.Gfa(objs, {})".format(kw))
+  elif entry == "carry":
+    out.append("g = gfapy.Gfa({})".format(kw))
+    out.append("for l in lines:")
+    out.append("  try: g.add_line(l)")
+    out.append("  except gfapy.Error as e: print('refused', repr(l), "
+               "type(e).__name__)")
   elif entry == "inc":
     out.append("g = gfapy.Gfa({})".format(kw))
     out.append("for l in lines: g.add_line(l)")
